@@ -150,7 +150,7 @@ def generate_section_geometry(sections, symmetry, section_data, ny, nx, root_sec
             tip_c = root_c * taper
             root_y = panel_gy[sec - 1][-1]
 
-            root_te = panel_gx[sec - 1][nx - 1, 0]
+            root_te = panel_gx[sec - 1][nx - 1, -1]
             root_le = root_c + root_te
             tip_le = root_le + b * np.tan(le_lambda)
             tip_te = tip_le - tip_c
